@@ -9,6 +9,7 @@ CONSTANTS Alphabet,     \* symbols that can be typed
           Lists,        \* result lists that can be published
           MaxItemsC, CycleC, LayoutC, ScrollOffC, InputlessC,
           Multis,       \* initial --multi limits
+          Tracks,       \* initial tracking modes
           ActFilter     \* "all", "query" (query-line actions only) or "list" (navigation/selection only)
 
 VARIABLES st, list, rendered, hist
@@ -21,7 +22,7 @@ TextOf(id) == CASE id = 0 -> <<"a", "b">> [] id = 1 -> <<"a", " ", "c">> [] id =
 Env == [list |-> list, texts |-> [i \in 1..Len(list) |-> TextOf(list[i])], maxItems |-> MaxItemsC, cycle |-> CycleC,
         layout |-> LayoutC, scrollOff |-> ScrollOffC, inputless |-> InputlessC]
 
-Init == /\ st \in [input : {<<>>}, cx : {0}, yanked : {<<>>}, cy : {0}, offset : {0}, sel : {<<>>}, multi : Multis]
+Init == /\ st \in [input : {<<>>}, cx : {0}, yanked : {<<>>}, cy : {0}, offset : {0}, sel : {<<>>}, multi : Multis, track : Tracks]
         /\ list \in Lists /\ rendered = FALSE /\ hist = <<>>
 
 NoArg == {"backward-char", "forward-char", "beginning-of-line", "end-of-line", "delete-char", "backward-delete-char",
@@ -29,12 +30,19 @@ NoArg == {"backward-char", "forward-char", "beginning-of-line", "end-of-line", "
           "backward-word", "forward-word", "clear-query", "replace-query", "up", "down", "first", "last", "page-up",
           "page-down", "half-page-up", "half-page-down", "toggle", "toggle-up", "toggle-down", "toggle-in",
           "toggle-out", "toggle-all", "select-all", "deselect-all", "select", "deselect", "clear-selection",
-          "next-selected", "prev-selected", "cancel", "delete-char/eof", "backward-delete-char/eof"}
+          "next-selected", "prev-selected", "cancel", "delete-char/eof", "backward-delete-char/eof",
+          "toggle-track", "toggle-track-current", "track-current", "untrack-current", "exclude", "exclude-multi"}
 QueryActs == {"backward-char", "forward-char", "beginning-of-line", "end-of-line", "delete-char", "backward-delete-char",
           "kill-line", "kill-word", "backward-kill-word", "unix-line-discard", "unix-word-rubout", "yank",
           "backward-word", "forward-word", "clear-query", "replace-query", "cancel", "delete-char/eof",
           "backward-delete-char/eof", "char", "put", "change-query"}
-ActOK(a) == ActFilter = "all" \/ (ActFilter = "query" /\ a \in QueryActs) \/ (ActFilter = "list" /\ a \notin QueryActs)
+(* tracking: with --track on, a result that stays in the list keeps the cursor (and its screen row) across an update *)
+InvTrackFollows == \A l \in Lists : (st.track # 0 /\ Current(st, Env) # -1 /\ InSeq(Current(st, Env), l))
+                      => LET n == ListChangedT(st, list, l, "same", LAMBDA x : TRUE, MaxItemsC)
+                         IN l[n.cy + 1] = Current(st, Env) /\ n.cy - n.offset = st.cy - st.offset
+TrackActs == {"toggle-track", "toggle-track-current", "track-current", "untrack-current"}
+ActOK0(a) == ActFilter = "all" \/ (ActFilter = "query" /\ a \in QueryActs) \/ (ActFilter = "list" /\ a \notin QueryActs)
+ActOK(a) == (a \notin TrackActs \/ Tracks # {0}) /\ ActOK0(a)
 ActArgs0 == [act : NoArg, arg : {<<>>}]
            \cup [act : {"char"}, arg : {<<c>> : c \in Alphabet}]
            \cup [act : {"put", "change-query"}, arg : {<<>>} \cup {<<c>> : c \in Alphabet} \cup {<<c, d>> : c, d \in Alphabet}]
@@ -46,16 +54,17 @@ Do(a) == /\ Exits(a.act, st, Env, FALSE, Len(list)) = "none"
          /\ st' = Apply(a.act, a.arg, st, Env)
          /\ rendered' = FALSE /\ UNCHANGED list
 Render == /\ st' = ConstrainView(st, Env) /\ rendered' = TRUE /\ UNCHANGED list
-NewList(l, kind) == /\ list' = l /\ st' = ListChanged(st, kind, LAMBDA x : x > 1) /\ rendered' = FALSE
+NewList(l, kind) == /\ list' = l /\ st' = ListChangedT(st, list, l, kind, LAMBDA x : x > 1, MaxItemsC) /\ rendered' = FALSE
 
 Next == /\ \/ \E a \in ActArgs : Do(a)
            \/ Render
            \/ \E l \in Lists, k \in {"same", "reload", "trim"} : NewList(l, k)
         /\ UNCHANGED hist
-Bound == Len(st.input) <= MaxLen /\ Len(st.yanked) <= MaxLen
+Bound == Len(st.input) <= MaxLen /\ Len(st.yanked) <= MaxLen /\ st.offset \in -4..8 /\ st.cy \in -2..8
 
 MCLists == {<<>>, <<1>>, <<2, 1>>, <<1, 2, 3>>, <<3, 1, 2>>, <<1, 2, 3, 4, 5>>}
 MCListsQ == {<<3, 1>>}
+MCListsT == {<<>>, <<2, 1>>, <<1, 2, 3>>, <<3, 1, 2, 4>>}
 (* ---- invariants (C09) ---- *)
 AsSet(q) == {q[i] : i \in 1..Len(q)}
 InvType == TypeOKs(st)
